@@ -516,3 +516,35 @@ def rule_ag_median(cx, rep, port):
     ok_even = idx_lo in et and idx_hi in et and ('/ 2' in et) and ('+' in et)
     bad_idx = '[{} + 1]'.format(m) in et
     rep.decide(ok_even and not bad_idx, 'median even', even_arm[0] if even_arm else iff, 'even count -> mean of the two middle values s[m-1], s[m]', 'for an even number of values MEDIAN is not (s[m-1] + s[m]) / 2 (`{}`)'.format(et[:120]))
+
+
+def rule_ag_parse(cx, rep, port='js'):
+    """rbql-js parse_number: every value it hands back was tested with isNaN (a non-numeric value, however it arrives - a string
+    or the NaN an arithmetic expression produced - raises the runtime error that names the record)"""
+    from .. import pathsem
+    p = cx.port('js')
+    fd = p.func('rbql', 'parse_number')
+    ps = pathsem.paths(fd)
+    if ps is None:
+        rep.undecided('parse_number', fd, 'parse_number is not summarisable as paths')
+        return
+    n = 0
+    raises = False
+    for q in ps:
+        if q.kind == 'raise':
+            raises = raises or (q.value is not None and 'RbqlRuntimeError' in node_text(q.value, 200))
+            continue
+        if q.kind != 'return' or q.value is None:
+            continue
+        n += 1
+        rv = ast.dump(q.value)
+        tested = False
+        for atom, pol in pathsem.atoms(q.conds):
+            if isinstance(atom, ast.Call) and dotted(atom.func) in ('isNaN', 'Number.isNaN') and atom.args and not pol:
+                arg = atom.args[0]
+                if ast.dump(arg) == rv or (isinstance(arg, ast.Call) and dotted(arg.func) == 'Number' and arg.args and ast.dump(arg.args[0]) == rv) or (isinstance(q.value, ast.Call) and dotted(q.value.func) in ('Number', 'parseFloat') and q.value.args and ast.dump(q.value.args[0]) == ast.dump(arg)):
+                    tested = True
+        if not tested:
+            rep.violated('parse_number', q.node, 'parse_number returns `{}` on a path that has not tested it with isNaN: a NaN (e.g. from `MAX(a2 * 10)` over a non-numeric field) is accumulated silently instead of raising the conversion error at that record'.format(node_text(q.value, 40)))
+            return
+    rep.decide(n >= 1 and raises, 'parse_number', fd, 'every returned value was tested with isNaN; NaN raises the runtime error', 'parse_number has no path raising the conversion error')
